@@ -400,6 +400,10 @@ def judge_nofault(ops, impl):
             # a user panic injected by panic-cfg is not mux's fault; runtime faults are
             if 'panicked:fault' in obs or 'recovered:fault' in obs or obs == 'fault':
                 bad.append((i, 'runtime fault while serving: ' + obs[:120]))
+        elif toks[0].startswith('u-'):
+            # unit-level observations of unexported functions on arbitrary strings (tie only): NewSegment is only
+            # ever called on Split pieces; its fault on strings like "/:{a}" is proved unreachable (C05.lean)
+            continue
         elif obs == 'fault' or obs.startswith('fault'):
             bad.append((i, 'runtime fault in ' + toks[0]))
     return bad
@@ -1377,6 +1381,26 @@ def judge_c07(ops, impl):
                 bad.append((i, 'a brand-new router answers OPTIONS * with %s' % f['methods']))
     return bad
 
+EXEC = None   # set by bin/check: runs an op list on the implementation and returns its observation lines
+
+def is_decoy_line(line):
+    t = line.split()
+    return len(t) > 1 and t[1].isdigit() and 1000 <= int(t[1]) < 2000
+
+def judge_c07_decoys(ops, impl):
+    """the isolation stream interleaves decoy instances (ids 1000..1999) with the observed ones: the same program
+    without the decoy lines must produce the same observations on every remaining line"""
+    if EXEC is None or not any(is_decoy_line(l) for l in ops):
+        return []
+    keep = [i for i, l in enumerate(ops) if not is_decoy_line(l)]
+    impl2 = EXEC([ops[i] for i in keep])
+    bad = []
+    for k, i in enumerate(keep):
+        if k < len(impl2) and i < len(impl) and impl2[k] != impl[i]:
+            bad.append((i, 'answer depends on what OTHER instances did before: with decoys %s | without %s' % (impl[i][:110], impl2[k][:110])))
+            break
+    return bad
+
 JUDGES = {
     'C01': [judge_c01],
     'C02': [judge_c02],
@@ -1384,7 +1408,7 @@ JUDGES = {
     'C04': [judge_c04],
     'C05': [judge_nofault],
     'C06': [judge_c03, judge_c04, judge_nofault],
-    'C07': [judge_c07],
+    'C07': [judge_c07, judge_c07_decoys],
     'C08': [judge_c08],
     'C09': [judge_c09],
     'C10': [judge_c10],
@@ -1396,7 +1420,7 @@ JUDGES = {
     'C16': [judge_c16],
     'C17': [judge_c17],
     'C18': [judge_c18],
-    'C19': [judge_c19],
+    'C19': [judge_c19, judge_c03],
     'C20': [judge_c20],
 }
 
